@@ -472,13 +472,18 @@ def nzs_rules(chk):
     r_ = analyse(chk, DS + "c_h_factor", lambda I, st, fi: dict(period=AV(kind=K_ARRAY, dtype="real", shape=(LinExpr("P"),), sign=S_NONNEG,
                                                                           origin=frozenset(["p:period"]), tags=frozenset(["p:period"])),
                                                                   site_class=const_av("C")))
-    expect(chk, "R-NZS-SIB", c + ":c_h_factor(array of periods)", r_.ret, kind=K_ARRAY, shape=("P",), loc=ch.loc())
+    deco = bool(ch.node.decorator_list)         # a decorator changes what a call does: the body alone does not decide these two
+    chk.ob("R-NZS-SIB", c + ":c_h_factor(array of periods)", "a sequence of P periods gives an array of P factors", not deco and r_.ret.kind == K_ARRAY and
+           r_.ret.shape is not None and len(r_.ret.shape) == 1 and (r_.ret.shape[0] is None or r_.ret.shape[0] == LinExpr("P")),
+           derived="kind %s shape %r" % (r_.ret.kind, r_.ret.shape), loc=ch.loc(),
+           inconclusive=deco or r_.ret.indef or (r_.ret.kind == K_ARRAY and r_.ret.shape is None))
     te_ = [e for e in r_.I.events if e.kind == "type-error"]
     chk.ob("R-NZS-SIB", c + ":c_h_factor(array of periods){types}", "no ill-typed call on the way", not te_, derived="; ".join("%s %s" % (e.loc, e.what) for e in te_[:2])
            or "none", loc=te_[0].loc if te_ else ch.loc())
     r_ = analyse(chk, DS + "c_h_factor", lambda I, st, fi: dict(period=AV(kind=K_SCALAR, dtype="real", shape=(), sign=S_NONNEG, origin=frozenset(["lit"]),
                                                                           tags=frozenset(["p:period"]), note="pyscalar"), site_class=const_av("C")))
-    expect(chk, "R-NZS-SIB", c + ":c_h_factor(one float period)", r_.ret, kind=K_SCALAR, loc=ch.loc())
+    chk.ob("R-NZS-SIB", c + ":c_h_factor(one float period)", "one float period gives one factor", not deco and r_.ret.kind == K_SCALAR,
+           derived="kind %s" % r_.ret.kind, loc=ch.loc(), inconclusive=deco or r_.ret.indef)
     T2 = Poly.atom("T") * Poly.atom("T")
     ren = lambda a: re.sub(r"\b(tt|period)\b", "T", a)
     for cls in sorted(set(tch) & set(tsd)):
